@@ -454,10 +454,15 @@ Lemma sort_pkgs_idem : forall g, NoDup (map p_name g) -> sort_pkgs (sort_pkgs g)
 Proof. intros g H. symmetry. apply sort_pkgs_unique; auto. apply sort_pkgs_perm. Qed.
 
 (* ---- the keys of a group: total size and largest name ---------------------------------------------- *)
+Lemma u64_mod_nz : u64_mod <> 0%N.
+Proof. unfold u64_mod. discriminate. Qed.
+Lemma wrap64_add_l : forall a b, wrap64 (wrap64 a + b) = wrap64 (a + b).
+Proof. intros a b. unfold wrap64. apply N.add_mod_idemp_l. exact u64_mod_nz. Qed.
+
 Lemma g_size_perm : forall g g', Permutation g g' -> g_size g = g_size g'.
 Proof.
   intros g g' P. unfold g_size. generalize 0%N. induction P; intros a; simpl; auto.
-  - f_equal. lia.
+  - f_equal. rewrite !wrap64_add_l. f_equal. lia.
   - rewrite IHP1. apply IHP2.
 Qed.
 
